@@ -19,6 +19,90 @@ pub open spec fn tdiv(a: int, b: int) -> int { vstd::arithmetic::div_mod::rust_d
 pub open spec fn trem(a: int, b: int) -> int { vstd::arithmetic::div_mod::rust_rem(a, b) }
 pub open spec fn fdiv(a: int, b: int) -> int { if b > 0 { a / b } else { (-a) / (-b) } }
 pub open spec fn cdiv(a: int, b: int) -> int { -fdiv(-a, b) }
+/// floored modulo: a - b * floor(a / b)
+pub open spec fn fmod(a: int, b: int) -> int { a - smul(b, fdiv(a, b)) }
+// ---- floored modulo vs. the truncating remainder of Rust / num-bigint (proved, not assumed)
+pub mod fmod_lemmas {
+    use vstd::prelude::*;
+    use vstd::arithmetic::div_mod::*;
+    use super::{smul, trem, fdiv, fmod};
+    verus! {
+pub open spec fn adjusted(a: int, b: int) -> int {
+    let r0 = trem(a, b);
+    if r0 != 0 && ((r0 < 0) != (b < 0)) { r0 + b } else { r0 }
+}
+/// Euclidean remainder is the unique r in [0, d) with x == q*d + r (d > 0)
+proof fn uniq(x: int, d: int, q: int, r: int)
+    requires d > 0, 0 <= r < d, x == q * d + r,
+    ensures x % d == r, x / d == q,
+{
+    lemma_fundamental_div_mod_converse(x, d, q, r);
+}
+proof fn pos_case(a: int, b: int)
+    requires b > 0,
+    ensures fmod(a, b) == adjusted(a, b),
+{
+    lemma_fundamental_div_mod(a, b);
+    lemma_mod_bound(a, b);
+    assert(fmod(a, b) == a % b) by(nonlinear_arith) requires a == b * (a / b) + a % b, fmod(a, b) == a - b * (a / b);
+    if a < 0 {
+        let q1 = (-a) / b; let r1 = (-a) % b;
+        lemma_fundamental_div_mod(-a, b);
+        lemma_mod_bound(-a, b);
+        if r1 == 0 {
+            assert(a == (-q1) * b + 0) by(nonlinear_arith) requires -a == b * q1 + r1, r1 == 0;
+            uniq(a, b, -q1, 0);
+        } else {
+            assert(a == (-q1 - 1) * b + (b - r1)) by(nonlinear_arith) requires -a == b * q1 + r1;
+            uniq(a, b, -q1 - 1, b - r1);
+        }
+    }
+}
+
+proof fn neg_mod_same(x: int, d: int)
+    requires d < 0,
+    ensures x % d == x % (-d),
+{
+    lemma_fundamental_div_mod(x, d);
+    assert(0 <= x % d < -d);
+    assert(x == (-(x / d)) * (-d) + x % d) by(nonlinear_arith) requires x == d * (x / d) + x % d;
+    uniq(x, -d, -(x / d), x % d);
+}
+proof fn neg_case(a: int, b: int)
+    requires b < 0,
+    ensures fmod(a, b) == adjusted(a, b),
+{
+    let nb = -b;
+    lemma_fundamental_div_mod(-a, nb);
+    lemma_mod_bound(-a, nb);
+    assert(fmod(a, b) == -((-a) % nb)) by(nonlinear_arith)
+        requires -a == nb * ((-a) / nb) + (-a) % nb, fmod(a, b) == a - b * ((-a) / nb), nb == -b;
+    if a >= 0 {
+        neg_mod_same(a, b);
+        let r0 = a % nb;
+        lemma_fundamental_div_mod(a, nb);
+        lemma_mod_bound(a, nb);
+        let q = a / nb;
+        if r0 == 0 {
+            assert(-a == (-q) * nb + 0) by(nonlinear_arith) requires a == nb * q + r0, r0 == 0;
+            uniq(-a, nb, -q, 0);
+        } else {
+            assert(-a == (-q - 1) * nb + (nb - r0)) by(nonlinear_arith) requires a == nb * q + r0;
+            uniq(-a, nb, -q - 1, nb - r0);
+        }
+    } else {
+        neg_mod_same(-a, b);
+    }
+}
+pub proof fn lemma_floored_mod(a: int, b: int)
+    requires b != 0,
+    ensures fmod(a, b) == adjusted(a, b),
+{
+    if b > 0 { pos_case(a, b); } else { neg_case(a, b); }
+}
+
+    }
+}
 pub uninterp spec fn ipow(b: int, e: nat) -> int;
 pub uninterp spec fn iand(a: int, b: int) -> int;
 pub uninterp spec fn ior(a: int, b: int) -> int;
